@@ -2,9 +2,11 @@ SPECIFICATION Spec
 CONSTANTS
   MaxNf = 3
   Roles <- RolesAll
-  PlaceholderTypedAsCookie = TRUE
+  PlaceholderTypedAsCookie = FALSE
   UidChecked = TRUE
   AdWhole = TRUE
+  StopAtAuth = TRUE
+  CtLenExact = TRUE
   LenChoices <- LenChoicesExh
   TruncMax = 4
-INVARIANTS TypeOK Sound Complete CookieBinding
+INVARIANTS TypeOK Sound Complete CookieBinding AuthenticOnly
